@@ -283,6 +283,9 @@ class Executor:
             return self.eval(st, e.orelse)
         a = self.eval_guarded(st, e.body, c)
         b = self.eval_guarded(st, e.orelse, z3.Not(c))
+        if isinstance(a, PyObj) and isinstance(b, PyObj) and a.o in (all, any) and b.o in (all, any):
+            # `check = all if c else any`: a quantifier builtin chosen by a condition (only usable as `check(<generator>)`)
+            return PyObj(("ifquant", c, a.o, b.o))
         a_none, b_none = isinstance(a, K) and a.v is None, isinstance(b, K) and b.v is None
         if a_none != b_none and isinstance(b if a_none else a, (K, V)):
             # `x if c else None` (or the mirror) with x of a plain (non-Optional) type: an Optional of that type
@@ -810,12 +813,17 @@ class Executor:
         fb = z3.Function(T.fresh_name("fb"), z3.IntSort(), z3.IntSort())
         fi = z3.Function(T.fresh_name("fidx"), z3.IntSort(), z3.IntSort(), z3.IntSort())
         n = seq_len(r)
-        st.assume(forall([j], z3.Implies(z3.And(0 <= j, j < n), z3.And(
-            0 <= fa(j), fa(j) < seq_len(outer), 0 <= fb(j), fb(j) < seq_len(inner(fa(j))),
-            z3.Select(seq_arr(r), j) == z3.Select(seq_arr(inner(fa(j))), fb(j)), fi(fa(j), fb(j)) == j))))
-        st.assume(forall([a, b], z3.Implies(z3.And(0 <= a, a < seq_len(outer), 0 <= b, b < seq_len(inner(a))), z3.And(
-            0 <= fi(a, b), fi(a, b) < n, fa(fi(a, b)) == a, fb(fi(a, b)) == b,
-            z3.Select(seq_arr(r), fi(a, b)) == z3.Select(seq_arr(inner(a)), b)))))
+        by_pos = lambda jj: z3.Implies(z3.And(0 <= jj, jj < n), z3.And(
+            0 <= fa(jj), fa(jj) < seq_len(outer), 0 <= fb(jj), fb(jj) < seq_len(inner(fa(jj))),
+            z3.Select(seq_arr(r), jj) == z3.Select(seq_arr(inner(fa(jj))), fb(jj)), fi(fa(jj), fb(jj)) == jj))
+        by_src = lambda aa, bb: z3.Implies(z3.And(0 <= aa, aa < seq_len(outer), 0 <= bb, bb < seq_len(inner(aa))), z3.And(
+            0 <= fi(aa, bb), fi(aa, bb) < n, fa(fi(aa, bb)) == aa, fb(fi(aa, bb)) == bb,
+            z3.Select(seq_arr(r), fi(aa, bb)) == z3.Select(seq_arr(inner(aa)), bb)))
+        st.assume(forall([j], by_pos(j)))
+        st.assume(forall([a, b], by_src(a, b)))
+        # the instances at the first element (what `xs[0]` / `len(xs) > 1` tests after the call need), stated ground
+        st.assume(by_pos(z3.IntVal(0)))
+        st.assume(by_src(z3.IntVal(0), z3.IntVal(0)))
         return r
 
     def comprehension(self, st, e):
@@ -888,6 +896,8 @@ class Executor:
         # quantifier builtins take a generator: evaluate lazily
         if isinstance(f, PyObj) and f.o in (all, any, sum) and len(e.args) == 1 and isinstance(e.args[0], (ast.GeneratorExp, ast.ListComp)):
             return self.quantified(st, f.o, e.args[0])
+        if self.is_ifquant(f) and len(e.args) == 1 and isinstance(e.args[0], (ast.GeneratorExp, ast.ListComp)):
+            return self.quantified_choice(st, f, e.args[0])
         args = [self.eval(st, a) for a in e.args]
         kwargs = self.eval_kwargs(st, e.keywords)
         return self.apply(st, f, args, kwargs, e, stmt_level=False)
@@ -905,6 +915,17 @@ class Executor:
                 kwargs[k.arg] = val
         return kwargs
 
+    @staticmethod
+    def is_ifquant(f):
+        return isinstance(f, PyObj) and isinstance(f.o, tuple) and len(f.o) == 4 and f.o[0] == "ifquant"
+
+    def quantified_choice(self, st, f, g):
+        """(all if c else any)(<generator>)"""
+        _, c, qa, qb = f.o
+        ra = self.quantified(st, qa, g)
+        rb = ra if qb is qa else self.quantified(st, qb, g)
+        return V(BOOL, z3.If(c, ra.z, rb.z))
+
     def quantified(self, st, which, g):
         gens = g.generators
         qvars = []
@@ -914,6 +935,8 @@ class Executor:
             it = gen.iter
             if isinstance(it, ast.Call) and isinstance(it.func, ast.Name) and it.func.id == "range":
                 ra = [coerce(self.eval(st2, a), INT).z for a in it.args]
+                if len(ra) > 2:
+                    raise Unsupported("range() with a step inside a quantifier")
                 lo, hi = (z3.IntVal(0), ra[0]) if len(ra) == 1 else (ra[0], ra[1])
                 i = z3.Int(T.fresh_name("q"))
                 qvars.append(i)
@@ -1169,6 +1192,20 @@ class Executor:
                 ot = TOpt(lst.ty.elem)
                 return V(ot, z3.If(seq_len(lst) > 0, coerce(first, ot).z, ot.sort().none))
             return V(lst.ty.elem, z3.If(seq_len(lst) > 0, first.z, coerce(args[1], lst.ty.elem).z))
+        if len(args) == 1 and getattr(o, "__name__", None) == "from_iterable" and (
+                getattr(o, "__objclass__", None) is __import__("itertools").chain
+                or getattr(o, "__self__", None) is __import__("itertools").chain):
+            # itertools.chain.from_iterable(<generator | list of lists>): the concatenation, as a list value
+            a = args[0]
+            if isinstance(a, PyObj) and isinstance(a.o, tuple) and a.o[0] == "genexp":
+                _, gnode, genv = a.o
+                saved = st.env
+                st.env = dict(genv)
+                try:
+                    a = self.comprehension(st, ast.ListComp(elt=gnode.elt, generators=gnode.generators))
+                finally:
+                    st.env = saved
+            return self.flatten_value(st, a)
         if o is set and not args:
             return PyObj(("emptyset",))
         if o is dict and not args:
